@@ -25,6 +25,12 @@ TECHNIQUE = "metamorphic testing (rename / permute / prefix) over Hypothesis-gen
 
 PROFILE = S.profile(min_tasks=2, max_tasks=4, p_resources=70, task_constraints=(0, 2), optional_rules=(0, 1), resource_constraints=(0, 2), buffers=(0, 1),
                     indicators=(0, 1), objectives=(0, 1), p_optional=40, p_work_amount=15, p_cumulative=35)
+# strata: (a) workers shared between direct assignments of optional tasks and selections, under sorting constraints (parking
+# instants); (b) start-time objectives over optional tasks
+PROFILE_PARK = S.profile(min_tasks=2, max_tasks=4, horizon=(3, 7), p_resources=100, n_workers=(2, 3), p_select=70, p_cumulative=10, task_constraints=(0, 1), optional_rules=(0, 0),
+                         resource_constraints=(1, 2), focus=["ResourceNonDelay", "ResourceTasksDistance"], p_optional=65, p_work_amount=5)
+PROFILE_STARTOBJ = S.profile(min_tasks=2, max_tasks=4, horizon=(3, 7), p_no_horizon=0, p_resources=40, task_constraints=(0, 2), optional_rules=(0, 1), resource_constraints=(0, 0),
+                             objectives=(1, 1), only_objectives=["TasksStartLatest", "MinimizeGreatestStartTime"], p_optional=65)
 PREFIX_PROFILE = S.profile(min_tasks=1, max_tasks=3, p_resources=60, task_constraints=(0, 1), optional_rules=(0, 0), resource_constraints=(0, 1), objectives=(0, 1), p_optional=40)
 NAME_POOL = ["a", "b", "x", "t", "A1", "Task", "task_1", "task_2", "W", "worker", "Ωmega", "tâche", "name with space", "a.b", "x_start", "x_end", "q" * 24,
              "T1", "T2", "T3", "W1", "W2", "K1", "S1", "B1", "c1", "z_busy", "_lead", "n-1", "0", "17", "Selected", "horizon2"]
@@ -147,8 +153,8 @@ def permute(spec, perms):
 
 
 @st.composite
-def cases(draw):
-    spec = draw(S.specs(PROFILE))
+def cases(draw, prof=None):
+    spec = draw(S.specs(prof or PROFILE))
     names = all_names(spec)
     pool = [n for n in NAME_POOL]
     new = draw(st.lists(st.sampled_from(pool), min_size=len(names), max_size=len(names), unique=True))
@@ -316,8 +322,10 @@ def prop(ctx, case):
 
 
 def run_shard(ctx):
-    n = {"quick": 70, "thorough": 800}[ctx.tier]
+    n = {"quick": 45, "thorough": 500}[ctx.tier]
     run_hypothesis(ctx, cases(), prop, max_examples=n)
+    run_hypothesis(ctx, cases(PROFILE_PARK), prop, max_examples=n // 2)
+    run_hypothesis(ctx, cases(PROFILE_STARTOBJ), prop, max_examples=n // 2)
 
 
 def replay(record):
